@@ -542,7 +542,8 @@ impl<const W: u16, const H: u16, C: RgbColor + 'static> Model for Ext<W, H, C> {
         DELAY: DelayNs,
         DI: Interface,
     {
-        let madctl = SetAddressMode::from(options);
+        // both public ways of building the address mode (models with an odd width use `new`)
+        let madctl = if W % 2 == 1 { SetAddressMode::new(options.color_order, options.orientation, options.refresh_order) } else { SetAddressMode::from(options) };
         delay.delay_us(5_000);
         di.write_command(madctl)?;
         di.write_command(SetInvertMode::new(options.invert_colors))?;
